@@ -20,7 +20,7 @@ ASSUMPTIONS = ["reading convention: character -1-k of a bit string is the value 
                "end-to-end failures already visible in the C01/C02 monitors on the same program are blamed on those root causes (DESIGN 4.5)"]
 CASE_TIMEOUT = {"quick": 40, "thorough": 120}
 
-LEAVES = ["bool", "Qint2", "Qint3", "Qint4", "Qint5", "Qint6", "Qint8", "Qfixed1_2", "Qfixed2_2", "Qfixed1_3", "Qfixed2_3", "Qfixed4_4", "Qchar"]
+LEAVES = ["bool", "Qint2", "Qint3", "Qint4", "Qint5", "Qint6", "Qint8", "Qint12", "Qfixed1_2", "Qfixed2_2", "Qfixed1_3", "Qfixed2_3", "Qfixed1_4", "Qfixed2_4", "Qfixed3_3", "Qfixed3_4", "Qfixed4_4", "Qfixed1_6", "Qfixed2_6", "Qfixed3_6", "Qfixed4_6", "Qchar"]
 
 
 def rtype(rng, budget, depth=0):
